@@ -88,7 +88,7 @@ class Result:
         self.timed_out = False
 
 
-def bfs(seeds, plan, caps=None, sample_rng=None, on_level=None, is_known=None, big_frontier=20000, deadline=None) -> Result:
+def bfs(seeds, plan, caps=None, sample_rng=None, on_level=None, is_known=None, big_frontier=20000, deadline=None, prune_on=("c01", "c06")) -> Result:
     """plan: list of group tuples, one per depth level (len(plan) == max depth)."""
     caps = caps or {}
     res = Result()
@@ -133,12 +133,12 @@ def bfs(seeds, plan, caps=None, sample_rng=None, on_level=None, is_known=None, b
                 bad = False
                 newhist = (hist[0], tuple(hist[1]) + (op,))
                 if c01_key:
-                    bad = True
+                    bad = bad or "c01" in prune_on
                     res.c01_count[c01_key] = res.c01_count.get(c01_key, 0) + 1
                     if c01_key not in res.c01:
                         res.c01[c01_key] = (newhist, out, c01)
                 if c06_key:
-                    bad = True
+                    bad = bad or "c06" in prune_on
                     res.c06_count[c06_key] = res.c06_count.get(c06_key, 0) + 1
                     if c06_key not in res.c06:
                         res.c06[c06_key] = (newhist, out, c06)
